@@ -120,7 +120,7 @@ class Recorder:
                 cands += [("section_address", x), ("section_size", x)]
         for b in sorted(self.c["CodeBlocks"] | self.c["DataBlocks"]):
             cands += [("block_address", b), ("contains_offset", b), ("contains_address", b)]
-        if not self.c["Addrs"]:
+        if not self.c["Addrs"] and not self.c["Queries"]:
             cands = []          # a universe without geometry: only the lookups by name and by referent below
         if self.c["Symbols"]:
             cands += [("symbols_named", m) for m in sorted(self.c["Modules"])]
@@ -247,7 +247,7 @@ def run_judge(name, consts, path, *, chunks=8, timeout=3000):
         p = os.path.join(wd, "part.ndjson")
         with open(p, "w") as fh:
             fh.write("\n".join(part) + "\n")
-        r = tlc.run(mod, cfg, extra_files=files, workers=2, env_extra={"JUDGE_FILE": p}, timeout=timeout)
+        r = tlc.run(mod, cfg, extra_files=files, workers=2, env_extra={"JUDGE_FILE": p}, timeout=timeout, heap="2g")
         if r.errors or r.violation:
             raise MachineryFailure("judge %s: %s" % (name, (r.errors or [r.violation])[0][:1500]))
         judged = sum(x.get("judged", 0) for x in r.records)
@@ -357,4 +357,7 @@ class LazyEnv:
         # the twin's final answers are judged by TLC as well
         qs = [{"f": f, "x": x, "q": q, "ans": self.rec.ask_safe(self.twin, f, x, q, False)} for f, x, q, _ in a[:40]]
         self.rec.write(self.twin, [e for e in qs if e["ans"] is not None])
+        # ... and so are the main environment's (what a wrong index answers after this history is C05/C06/C13's, too)
+        qs = [{"f": f, "x": x, "q": q, "ans": self.rec.ask_safe(self.main, f, x, q, False)} for f, x, q, _ in b[:40]]
+        self.rec.write(self.main, [e for e in qs if e["ans"] is not None])
         return out
